@@ -73,7 +73,7 @@ SIM_NET = ["stream sockets, listeners, connect/accept, send-buffer back-pressure
 ASSUME_S = ["World S: the simulated socket layer in vk/vk.cpp follows Linux for the states libevent distinguishes (data/EOF => IN, room => OUT, half-close => RDHUP, reset => ERR|HUP); it is my model of the kernel, not the kernel",
             "filter functions are harness code and honour the dst_limit they are given", "sampling of plans by seeded search, not enumeration"]
 def h4(quick, thorough):
-    return lambda tier: [dict(name="h_bev", harness="h_bev", count=quick if tier == "quick" else thorough)]
+    return lambda tier: [dict(name="h_bev", harness="h_bev", count=quick if tier == "quick" else thorough, tlimit=40 if tier == "quick" else 500)]
 PROPS.update({
  "C17": dict(level="exploration", stages=h4(12000, 200000),
    rule="1-3 connections per run over five topologies (socket<->scripted peer, socket<->socket, pair, filters over pairs incl. 1-3 stacked filters of five kinds), position-coded payloads so every received byte identifies its offset, writes of 0 B-70 KiB (thorough: 1.5 MB), enable/disable toggling, flush modes, watermarks, short/EAGAIN/EINTR I/O, tiny socket buffers, segment cutting, half-close, reset, free mid-stream; non-trivial when >= 1 KiB crossed a stream and >= 1 fault or toggle happened; distinct = distinct trace hashes among non-trivial runs",
@@ -88,4 +88,12 @@ PROPS.update({
  "C20": dict(level="exploration", stages=h4(12000, 200000),
    rule="same topologies with read/write timeouts from 1 ms to 3 s, virtual-time advances at and around the timeout values, stalled peers, watermark suspension; a timeout event must come no earlier than the configured idle time after the last transfer/enable, only while enabled, and must disable the direction; non-trivial when a timeout fired; distinct = distinct trace hashes among non-trivial runs",
    components=dict(real=REAL_BEV, simulated=SIM_NET, stubbed=[]), assumptions=ASSUME_S, expected_probes=["read-timeout", "write-timeout"]),
+})
+PROPS.update({
+ "C22": dict(level="exploration", stages=h4(12000, 200000),
+   rule="socket bufferevents (socket<->scripted peer, socket<->socket) with per-bufferevent limits (rates 1 B..100 KB per tick, bursts 1-5 x rate, ticks 1 ms..1 s), up to two rate-limit groups with min_share, joining/leaving, manual decrements (also negative), max_single_read/write, virtual-time advances and wall-clock jumps forwards and backwards; an independent ledger of every simulated read/write system call (tick, bytes) is checked against burst + k x rate for every window of k ticks, per bufferevent and per group (+ one min_share per member), and every single call against max_single; progress: the final phase expects every written byte to arrive with the limits still in force; non-trivial when a limit or group was configured; distinct = distinct trace hashes among non-trivial runs",
+   components=dict(real=REAL_BEV, simulated=SIM_NET + ["wall clock (gettimeofday) with injected jumps"], stubbed=[]), assumptions=ASSUME_S, expected_probes=["rate-limit-set", "rate-group", "manual-decrement", "left-rate-group"]),
+ "C44": dict(level="exploration", stages=h4(12000, 200000),
+   rule="an evconnlistener on a simulated listening socket with scripted clients connecting in bursts of 0-20, enable/disable/set_cb(NULL)/free from top level and from inside the callback, scripted accept4 errors (EAGAIN, EINTR, ECONNABORTED, EMFILE, ENFILE, ENOMEM), all option flags; ledger: every fd handed out by accept4 is delivered exactly once with the client's address or closed by the library, nothing is accepted while disabled, the error callback never runs for retriable errors, the listening fd is closed on free iff LEV_OPT_CLOSE_ON_FREE; non-trivial when clients connected; distinct = distinct trace hashes among non-trivial runs",
+   components=dict(real=REAL_BEV, simulated=SIM_NET, stubbed=[]), assumptions=ASSUME_S, expected_probes=["listener-disabled-inside-callback", "listener-freed-inside-callback", "listener-callback-cleared"]),
 })
